@@ -176,6 +176,9 @@ def run(ctx, res):
            b'.\xc0\xae/secret/x', b'\xe0\x80.\xe0\x80./secret/x']
     plan += [(rb, lp) for rb in raw for lp in (None, 'lib/?.lua', '?')]
     # names a shell or os.path.expanduser would expand (HOME is pointed at the directory of canaries while require() is exercised)
+    # blanks before / after something that would be refused without them
+    plan += [(ws1 + r_ + ws2, lp) for r_ in (os.path.join(outside, 'x'), '/etc/passwd', '../secret/x', '..', './x', os.path.join(sib, 'x.lua'))
+             for ws1, ws2 in ((' ', ''), ('\t', ''), ('  ', ' '), ('', ' '), ('\x0b', ''), ('\xa0', '')) for lp in (None, '?', ' ?.lua ; ?')]
     plan += [(r_, lp) for r_ in ('~', '~/x', '~/inc', '~/init', '~root/x', 'x/~', '~/lib/inc', '$HOME/x', '${HOME}/x', '%HOME%/x')
              for lp in (None, '?', '?.lua;lib/?.lua', 'ENV')]
     saved_home_req = os.environ.get('HOME')
